@@ -268,8 +268,40 @@ class C07(Prop):
     rule = ("route, alternatives and accessibility requests that yield no route; each of the eight reasons is aimed at (tight access/egress "
             "maxima, late/early requests, tight max_travel_time, first-wait cap); non-trivial = a no_routing_found answer; distinct (dataset, request)")
 
+    def boundary_query(self, rng, d):
+        """a request whose max_travel_time sits right at the departure (resp. arrival) of a vehicle that can just be
+        caught from an access stop (resp. reaches an egress stop): the border between NO_SERVICE_* and NO_ROUTING_FOUND"""
+        acc = {s: t for s, t, x in d["acc"] if t <= 1200}; egr = {s: t for s, t, x in d["egr"] if t <= 1200}
+        cands = []
+        for p, sv, tid, arr, dep, cb, cu in d["trips"]:
+            st = d["paths"][p][1]
+            for i in range(len(st) - 1):
+                if st[i] in acc: cands.append(("f", dep[i], acc[st[i]]))
+                if st[i + 1] in egr: cands.append(("r", arr[i + 1], egr[st[i + 1]]))
+        if not cands: return None
+        kind, t, w = rng.choice(cands)
+        mw = rng.choice([0, 60, 180])
+        slack = rng.choice([0, 0, 30, 200])
+        me = min(egr.values()) if egr else 0; ma = min(acc.values()) if acc else 0
+        if kind == "f":
+            T = max(0, t - w - mw - slack)
+            q = dict(scenario=0, time_of_trip=T, time_type=0, min_waiting_time=mw,
+                     max_travel_time=max(1, t - T + rng.choice([-1, 0, 1, -me, -me + 1, -me - 1, me, 5])))
+        else:
+            T = t + w + slack
+            q = dict(scenario=0, time_of_trip=T, time_type=1, min_waiting_time=mw,
+                     max_travel_time=max(1, T - t + rng.choice([-1, 0, 1, -ma, -ma + 1, ma, 5])))
+        q["max_first_waiting_time"] = rng.choice([0, 0, 300])
+        return q
+
     def requests(self, rng, d):
         rs = []
+        for _ in range(2):
+            q = self.boundary_query(rng, d)
+            if q is not None:
+                kind = rng.choice(["route", "route", "accessibility"])
+                if kind == "route" and rng.random() < 0.25: q["alternatives"] = "1"
+                rs.append((kind, q))
         for _ in range(4):
             q = gen.gen_query(rng, d, cap=rng.choice([0, None, 120, 300]))
             r = rng.random()
